@@ -98,6 +98,9 @@ def lcb_schedule(k):
 def materialise_options(opts):
     """JSON scenario options -> options dict for BADS (callables are described as {"__callable__": name, ...})."""
     out = copy.deepcopy(opts)
+    sd = out.pop("__seed_dtype__", None)
+    if sd and out.get("random_seed") is not None:
+        out["random_seed"] = {"np.int64": np.int64, "np.int32": np.int32}[sd](out["random_seed"])  # NumPy integer seeds are integers too
     for key, val in list(out.items()):
         if isinstance(val, dict) and val.get("__callable__") == "lcb_schedule":
             out[key] = ("acq_LCB", lcb_schedule(val["k"]))
